@@ -49,7 +49,7 @@ IsPending(st) == st \in {"pending-install", "pending-upgrade", "pending-rollback
 
 (* ----- kind order: pkg/release/util/kind_sorter.go ---------------------- *)
 
-InstRank(k) == CASE k = "ConfigMap" -> 11 [] k = "Service" -> 24 [] k = "Job" -> 32
+InstRank(k) == CASE k = "IncludedCRD" -> 0 [] k = "ConfigMap" -> 11 [] k = "CustomResourceDefinition" -> 15 [] k = "Service" -> 24 [] k = "Job" -> 32
                  [] k = "Gadget" -> 101 [] k = "Widget" -> 102 [] OTHER -> 200
 UninstRank(k) == CASE k = "Service" -> 6 [] k = "Job" -> 8 [] k = "ConfigMap" -> 28
                    [] k = "Gadget" -> 101 [] k = "Widget" -> 102 [] OTHER -> 200
